@@ -21,7 +21,7 @@ def fold(line: str, width=75):
 
 
 def ics_event(uid, summary, dtstart="20200101T100000Z", dtend="20200101T110000Z",
-              variant=0, extra=(), comp="VEVENT"):
+              variant=0, extra=(), comp="VEVENT", calprops=()):
     """A valid VCALENDAR with one component.  variant changes presentation only
     (line endings, property order, folding) - not the canonical content."""
     props = []
@@ -36,8 +36,9 @@ def ics_event(uid, summary, dtstart="20200101T100000Z", dtend="20200101T110000Z"
     props.extend(extra)
     if variant == 1:
         props = list(reversed(props))
-    lines = ["BEGIN:VCALENDAR", "VERSION:2.0", "PRODID:%s" % PRODID,
-             "BEGIN:%s" % comp] + props + ["END:%s" % comp, "END:VCALENDAR"]
+    # calprops: properties of the VCALENDAR wrapper itself (RFC 7986: UID, NAME, COLOR ...)
+    lines = ["BEGIN:VCALENDAR", "VERSION:2.0", "PRODID:%s" % PRODID] + list(calprops) + \
+            ["BEGIN:%s" % comp] + props + ["END:%s" % comp, "END:VCALENDAR"]
     if variant == 2:
         # fold every long-ish line early and use LF only
         lines = [ln if len(ln) < 20 else ln[:12] + "\n " + ln[12:] for ln in lines]
@@ -147,11 +148,13 @@ def query_all_body(kind):
             b'<A:filter><A:prop-filter name="FN"/></A:filter></A:addressbook-query>')
 
 
-def sync_body(token):
+def sync_body(token, props=("getetag",)):
+    """props: the DAV properties the client asks for per member (() = an empty DAV:prop)."""
     from xml.sax.saxutils import escape
     return ('<?xml version="1.0" encoding="utf-8"?><D:sync-collection xmlns:D="DAV:">'
             '<D:sync-token>%s</D:sync-token><D:sync-level>1</D:sync-level>'
-            '<D:prop><D:getetag/></D:prop></D:sync-collection>' % escape(token or "")).encode("utf-8")
+            '<D:prop>%s</D:prop></D:sync-collection>' % (
+                escape(token or ""), "".join("<D:%s/>" % p for p in props))).encode("utf-8")
 
 
 PROP_TAGS = {
